@@ -33,6 +33,7 @@ type bodyIn struct {
 	Expect   bool        `json:"expect"`  // the client announces its body with "Expect: 100-continue"
 	Gzip     bool        `json:"gzip"`    // proxy.gzip.contenttype configured (^text/): the gzip handler sits in the chain
 	AE       string      `json:"ae"`      // the client's Accept-Encoding ("" = none)
+	Accept   string      `json:"accept"`  // the client's Accept ("" = none): text/event-stream selects the SSE flush interval and keeps the gzip layer out
 	CType    string      `json:"ctype"`   // the request's Content-Type ("" = application/octet-stream)
 	RCE      []string    `json:"rce"`     // the Content-Encoding lines the upstream puts on its reply (none = not encoded): already encoded content
 	Cfg      pcfg        `json:"cfg"`     // proxy configuration beside the route: must not matter
@@ -186,6 +187,9 @@ func runBody(raw json.RawMessage) (interface{}, error) {
 	if in.AE != "" && (!validValue(in.AE) || strings.ContainsAny(in.AE, "\r\n")) {
 		return nil, errors.New("accept-encoding cannot be sent")
 	}
+	if in.Accept != "" && !validValue(in.Accept) {
+		return nil, errors.New("accept cannot be sent")
+	}
 	if in.CType != "" && !validValue(in.CType) {
 		return nil, errors.New("content-type cannot be sent")
 	}
@@ -233,6 +237,9 @@ func runBody(raw json.RawMessage) (interface{}, error) {
 	fmt.Fprintf(&b, "%s /b/x HTTP/1.1\r\nHost: example.com\r\nContent-Type: %s\r\n", in.Method, ctype)
 	if in.AE != "" {
 		fmt.Fprintf(&b, "Accept-Encoding: %s\r\n", in.AE)
+	}
+	if in.Accept != "" {
+		fmt.Fprintf(&b, "Accept: %s\r\n", in.Accept)
 	}
 	if in.Expect && len(body) > 0 {
 		b.WriteString("Expect: 100-continue\r\n") // the body follows without waiting, as a client may
@@ -367,6 +374,9 @@ func init() {
 			bodyIn{Method: "GET", RStatus: 200, RLen: 3000, Gzip: true, AE: "*", RHdr: [][2]string{{"Content-Type", "text/plain"}}},
 			bodyIn{Method: "GET", RStatus: 200, RLen: 3000, Gzip: true, AE: "identity, gzip;x=1;q=0.5", RHdr: [][2]string{{"Content-Type", "text/plain"}}},
 			bodyIn{Method: "GET", RStatus: 200, RLen: 3000, Gzip: true, AE: "gzip;q=1;q=0, br", RHdr: [][2]string{{"Content-Type", "text/plain"}}},
+			// a client that asks for an event stream: the SSE branch of the handler choice, and the gzip layer stays out
+			bodyIn{Method: "GET", RStatus: 200, RLen: 3000, RChunked: true, Gzip: true, AE: "gzip", Accept: "text/event-stream", RHdr: [][2]string{{"Content-Type", "text/event-stream"}}, Cfg: pcfg{Flush: 5}},
+			bodyIn{Method: "GET", RStatus: 200, RLen: 3000, Gzip: true, AE: "gzip", Accept: "text/html, text/event-stream;q=0.9", RHdr: [][2]string{{"Content-Type", "text/html"}}},
 			// trailer fields of the reply, with and without the gzip layer
 			bodyIn{Method: "POST", ReqLen: 10, ReqSeed: 6, Chunks: []int{4}, RStatus: 200, RLen: 300, RTrailer: [][2]string{{"X-T", "1"}, {"X-T", "2"}}},
 			bodyIn{Method: "GET", RStatus: 200, RLen: 300, RChunked: true, RTrailer: [][2]string{{"X-T", "1"}}, Gzip: true, AE: "gzip", RHdr: [][2]string{{"Content-Type", "text/plain"}}},
@@ -441,6 +451,9 @@ func init() {
 			}
 			if in.ReqLen > 0 && r.Chance(1, 3) {
 				in.CType = r.Pick(ctypes)
+			}
+			if r.Chance(1, 5) {
+				in.Accept = r.Pick([]string{"text/event-stream", "text/event-stream", "text/html, text/event-stream;q=0.9", "*/*", "text/html", "TEXT/EVENT-STREAM"})
 			}
 			in.Cfg = genCfg(r)
 			in.RTrailer = [][2]string{}
